@@ -41,7 +41,8 @@ V = '(1 << 28)'
 
 # one representative per operator-precedence class; {v} is the position's variable, {w} another variable
 ARG_CLASSES = {
-    'primary': '{v}', 'unary': '-{v}', 'cast': '(int) {v}', 'mult': '{v} * 2', 'add': '{v} + 1', 'shift': '{v} >> 1',
+    'primary': '{v}', 'unary': '-{v}', 'cast': '(int) {v}', 'mult': '{v} * 2', 'div': '{v} / 2', 'mod': '{v} % 3',
+    'add': '{v} + 1', 'shift': '{v} >> 1',
     'rel': '{v} < {w}', 'eq': '{v} == {w}', 'bitand': '{v} & 1', 'xor': '{v} ^ 1', 'bitor': '{v} | 1',
     'and': '{v} && {w}', 'or': '{v} || {w}', 'ternary': 'c ? {v} : 0', 'comma': '({w}, {v})',
 }
@@ -72,7 +73,7 @@ class Prog:
         return list(self.order) if self.order is not None else list(range(self.n))
 
 
-QUICK3 = ('ternary', 'bitand', 'add', 'comma')      # classes kept for arity 3 in the quick tier
+QUICK3 = ('ternary', 'bitand', 'add', 'comma', 'div')      # classes kept for arity 3 in the quick tier
 
 
 def other(p, n, pool):
